@@ -78,6 +78,17 @@ def members_with_inherited(env, t):
     return ms
 
 
+def effective_addp(env, t):
+    """additionalProperties of an object: its own rule, else the rule inherited from an allOf parent (the library copies the parent's rule; two different rules are a Check error)"""
+    if t[2] is not None:
+        return t[2]
+    for p in t[3]:
+        a = effective_addp(env, env[p])
+        if a is not None:
+            return a
+    return None
+
+
 # ---- denotational semantics ----
 AP_KINDS = {"string": "s", "integer": "i", "boolean": "b", "null": "n", "object": "o", "array": "a"}
 
@@ -156,18 +167,26 @@ def accepts(env, node, d, fuel=60):
             if not opt and not kk.startswith("@") and kk not in keys:
                 return False
         shortcuts = [c for c in ms if c[0].startswith("@")]
+        under = []                                   # for every property that key shortcuts admit: the shortcuts whose entry its value fits
         for kk, x in d[1]:
             m = [c for c in ms if c[0] == kk and not c[0].startswith("@")]
-            if not m:                                # key shortcut @K: v admits any key accepted by the string type @K
-                if BARE_KEY_TYPE_IS_LITERAL[0]:   # the library's (pinned) reading: a key type that is a bare example stands for that very key
-                    m = [c for c in shortcuts if (kk == "s" if env[c[0]] == ("str", False) else accepts(env, env[c[0]], ("s", json.dumps(kk)), fuel - 1))][:1]
-                else:
-                    m = [c for c in shortcuts if accepts(env, env[c[0]], ("s", json.dumps(kk)), fuel - 1)][:1]
             if m:
                 if not accepts(env, m[0][2], x, fuel - 1):
                     return False
+                continue
+            # key shortcut @K: v admits under that entry any key accepted by the string type @K; several shortcuts may admit the key: the value has to fit
+            # the entry of one of them
+            if BARE_KEY_TYPE_IS_LITERAL[0]:   # the library's (pinned) reading: a key type that is a bare example stands for that very key
+                m = [c for c in shortcuts if (kk == "s" if env[c[0]] == ("str", False) else accepts(env, env[c[0]], ("s", json.dumps(kk)), fuel - 1))]
             else:
-                a = node[2]
+                m = [c for c in shortcuts if accepts(env, env[c[0]], ("s", json.dumps(kk)), fuel - 1)]
+            if m:
+                fits = [c[0] for c in m if accepts(env, c[2], x, fuel - 1)]
+                if not fits:
+                    return False
+                under.append(fits)
+            else:
+                a = effective_addp(env, node)
                 if a is None or a is False:
                     return False
                 if a == "any":
@@ -177,8 +196,29 @@ def accepts(env, node, d, fuel=60):
                         return False
                 elif not accepts(env, env[a], x, fuel - 1):
                     return False
+        # a required entry needs a property of its own: the required key shortcuts must be assigned different properties (judged only when the object has
+        # several shortcuts or JUDGE_REQUIRED_SHORTCUTS is set; see rule_form_cases for the single-shortcut policy)
+        req = [c[0] for c in shortcuts if not c[1]]
+        if req and (len(shortcuts) > 1 or JUDGE_REQUIRED_SHORTCUTS[0]):
+            owner = {}
+
+            def assign(sc, seen):
+                for i, fits in enumerate(under):
+                    if i in seen or sc not in fits:
+                        continue
+                    seen.add(i)
+                    if i not in owner or assign(owner[i], seen):
+                        owner[i] = sc
+                        return True
+                return False
+            for sc in req:
+                if not assign(sc, set()):
+                    return False
         return True
     raise ValueError(k)
+
+
+JUDGE_REQUIRED_SHORTCUTS = [True]
 
 
 def alt_node(a):
@@ -390,16 +430,21 @@ def rule_form_cases(rng, n):
             K = rng.choice(["@R", "@S", "@R", "@S", "@P", "@AL", "@SU", "@TS"])
             v = rng.choice([("int", None, None, False), ("ref", ["@I"], False), ("strl", 1, 2)])
             addp = rng.choice([None, None, False, "boolean"])
-            root = ("obj", [("a", rng.random() < 0.5, ("int", None, None, False)), (K, rng.random() < 0.5, v)], addp, [])
+            members = [("a", rng.random() < 0.5, ("int", None, None, False)), (K, rng.random() < 0.5, v)]
+            if rng.random() < 0.5:
+                # a second key shortcut whose key type overlaps the first one's: a key both admit stands under the entry its value fits; every required
+                # shortcut needs a property of its own
+                K2 = rng.choice([k for k in ["@R", "@S", "@AL", "@SU", "@TS"] if k != K])
+                v2 = rng.choice([("strl", 1, 2), ("bool",), ("int", None, None, False), ("ref", ["@I"], False)])
+                members.append((K2, rng.random() < 0.4, v2))
+            root = ("obj", members, addp, [])
             keys = ["abc", "b", "cab", "abd", "x", "xx", "xxx", "", "a1", "zz"]
             vals = [("i", "1"), ("i", str(lo)), ("i", "-7"), ("s", '"x"'), ("s", '"xxx"'), ("b", "true"), ("n", "null")]
             docs = []
             for _ in range(12):
                 ms = ([("a", ("i", "1"))] if rng.random() < 0.8 else []) + [(k, rng.choice(vals)) for k in rng.sample(keys, rng.choice([0, 1, 1, 2, 3]))]
                 rng.shuffle(ms)
-                if not root[1][1][1] and not any(k != "a" and accepts(env, env[K], ("s", json.dumps(k))) for k, _ in ms):
-                    continue        # a required shortcut entry with no matching key: the statement does not say; not judged
-                docs.append(("o", ms))
+                docs.append(("o", ms))      # (a required shortcut entry without a property of its own is a missing required property: 205)
         out.append((names, env, root, docs))
     return out
 
@@ -417,6 +462,12 @@ def allof_stream(rng, n):
         names = ["@B", "@C", "@I", "@S", "@K", "@T", "@U"]
         root = ("obj", [("combined", False, ("ref", ["@K"], False)), ("plain", rng.random() < 0.3, ("ref", [rng.choice(["@B", "@C"])], False)),
                         ("u", True, ("ref", [rng.choice(["@T", "@U"])], False)), ("arr", True, ("arr", [("ref", [rng.choice(["@T", "@U"]), "@B"], False)]))], None, [])
+        # a parent without properties still hands down its additionalProperties rule
+        eap = rng.choice(["string", "integer", "any", "@I", False])
+        env["@E"] = ("obj", [], eap, [])
+        env["@KE"] = ("obj", rng.choice([[], [("own", False, ("bool",))]]), None, rng.choice([["@E"], ["@B", "@E"], ["@E", "@C"]]))
+        names += ["@E", "@KE"]
+        root[1].append(("ke", True, ("ref", ["@KE"], False)))
         docs = []
         for _ in range(4):
             d = inhabitant(rng, env, root)
@@ -425,6 +476,10 @@ def allof_stream(rng, n):
                 docs.append(J.mutate_doc(rng, d))
         docs.append(("o", [("combined", ("o", [("b", ("i", "1")), ("c", ("s", '"x"'))] + [(k, ("b", "true")) for k, _, _ in own])), ("plain", ("o", [("b", ("i", "2"))])),
                            ("u", ("n", "null")), ("arr", ("a", [("n", "null"), ("i", "3")]))]))
+        base_ke = [(k, ({"int": ("i", "1"), "str": ("s", '"x"'), "bool": ("b", "true")}[x[0]])) for k, _, x in members_with_inherited(env, env["@KE"])]
+        comb = ("combined", ("o", [("b", ("i", "1")), ("c", ("s", '"x"'))] + [(k, ("b", "true")) for k, _, _ in own]))
+        for extra in ([], [("zz", ("s", '"v"'))], [("zz", ("i", "4"))], [("zz", ("s", '"v"')), ("yy", ("b", "false"))]):
+            docs.append(("o", [comb, ("ke", ("o", base_ke + extra))]))
         out.append((names, env, root, docs))
     return out
 
@@ -474,7 +529,7 @@ def machine_wire(env, names, node):
         return "A 0 0 %d %s" % (len(node[1]), " ".join(machine_wire(env, names, x) for x in node[1]))
     if k == "obj":
         ms = members_with_inherited(env, node)
-        a = node[2]
+        a = effective_addp(env, node)
         ap = "-" if a is None else ("f" if a is False else ("*" if a == "any" else ({"string": "kS", "integer": "kI", "boolean": "kB", "null": "kN", "object": "o", "array": "a"}.get(a) or "t%d" % names.index(a))))
         return "O 0 0 %s %d %s" % (ap, len(ms), " ".join("%s %d %s" % (kk.encode().hex() or "-", 0 if opt else 1, machine_wire(env, names, x)) for kk, opt, x in ms))
     raise NoWire(k)
